@@ -5,7 +5,6 @@ from __future__ import annotations
 import time
 from collections.abc import Callable, Generator
 from contextlib import contextmanager
-from functools import cache
 from typing import Any
 
 from ..config import ParserConfig
@@ -34,8 +33,7 @@ type RuleOutcome = RuleResult | ParseException
 type MemoCache = dict[MemoKey, RuleOutcome]
 
 
-@cache
-def find_cached_semantic_action(semantics: Any, name: str) -> Callable[..., Any] | None:
+def find_semantic_action(semantics: Any, name: str) -> Callable[..., Any] | None:
     if not semantics:
         return None
 
@@ -80,6 +78,8 @@ class ParserCore(Ctx):
             self.config.semantics = ModelBuilderSemantics()
         self.semantics: type | None = config.semantics
         self._furthest_exception: FailedParse | None = None
+        self._actions_semantics: Any = None
+        self._actions: dict[str, Callable[..., Any] | None] = {}
 
         self._initialize_caches()
         self.tracer: Tracer = NullTracer()
@@ -100,6 +100,8 @@ class ParserCore(Ctx):
         self._initialize_caches()
         self.keywords: set[str] = set(self.config.keywords or ())
         self.semantics = self.config.semantics
+        self._actions_semantics = None
+        self._actions = {}
         if self.semantics and hasattr(self.semantics, 'set_context'):
             self.semantics.set_context(self)
 
@@ -244,7 +246,17 @@ class ParserCore(Ctx):
         raise NotImplementedError
 
     def find_semantic_action(self, name: str) -> Callable[..., Any] | None:
-        return find_cached_semantic_action(self.semantics, name)
+        # NOTE: cached by the identity of the semantics object:
+        #   it may be unhashable, or equal to a different object
+        semantics = self.semantics
+        if self._actions_semantics is not semantics:
+            self._actions_semantics = semantics
+            self._actions = {}
+        try:
+            return self._actions[name]
+        except KeyError:
+            action = self._actions[name] = find_semantic_action(semantics, name)
+            return action
 
     def newexcept(
         self,
